@@ -793,4 +793,7 @@ _add_rt2("C17", None,
          "the real code only. refusals / refused_before_variables / refusals_uncomputable are case splits over the if-chain: they pin the exception class "
          "and the order of the checks; `no event consumed, resolver not called` are constants of the refused branches (no step relation) and are checked on "
          "the real code (instrumented source) only.")
+_add_rt2("C09", "AUDIT ROUND 2: blocking_serial_order - the statement of serial_order at TRACE level for BlockingExecutor (its trace is a sequence of adjacent "
+                "`call p, done p` pairs: at every resolver invocation everything invoked before has finished), so `under every runtime` no longer rests on "
+                "the unfolded definition blocking_serial.", None)
 
